@@ -25,6 +25,21 @@ variable {F : Type} [Add F] [Mul F] [Sub F] [Neg F] [Inv F] [OfNat F 0] [OfNat F
 /-- Horner evaluation, `Polynomial.Eval` (`coeffs[0]` is the constant term) -/
 def eval (cs : List F) (x : F) : F := cs.foldr (fun c acc => acc * x + c) 0
 
+/-- `Polynomial.Add`: coefficient-wise on the common prefix, then the tail of the longer one -/
+def add : List F → List F → List F
+  | [], b => b
+  | a, [] => a
+  | x :: a, y :: b => (x + y) :: add a b
+
+/-- `Polynomial.ScalarMul` / `ScalarOp`: every coefficient times `s` (on the right, as in the Go code) -/
+def smul (cs : List F) (s : F) : List F := cs.map (· * s)
+
+/-- `Polynomial.Mul`: schoolbook product (`len a + len b - 1` coefficients; `[]` if a factor is `[]`) -/
+def mulPoly : List F → List F → List F
+  | [], _ => []
+  | _, [] => []
+  | x :: a, b => add (b.map (x * ·)) (0 :: mulPoly a b)
+
 /-- `n • c` by repeated addition (`algebrautils.ScalarMulNative` on the additive monoid) -/
 def nsmul : Nat → F → F
   | 0, _ => 0
